@@ -53,3 +53,6 @@ EQUIVALENT = [
 ]
 BREAKING.append(('delimiter sniffed in the first kilobyte', U, "    with path.open('r') as f:\n        delimiter = '\\t' if '\\t' in f.readline() else ','\n    with path.open('r') as f:\n        reader = csv.reader(f, delimiter=delimiter)\n        # Skip the header.\n        field_names", "    with path.open('r') as f:\n        delimiter = '\\t' if '\\t' in f.read(1024) else ','\n    with path.open('r') as f:\n        reader = csv.reader(f, delimiter=delimiter)\n        # Skip the header.\n        field_names", ['C18.T3']))
 EQUIVALENT.append(('delimiter sniffed with next(f)', U, "    with path.open('r') as f:\n        delimiter = '\\t' if '\\t' in f.readline() else ','\n    with path.open('r') as f:\n        reader = csv.reader(f, delimiter=delimiter)\n        # Skip the header.\n        field_names", "    with path.open('r') as f:\n        delimiter = '\\t' if '\\t' in next(f) else ','\n    with path.open('r') as f:\n        reader = csv.reader(f, delimiter=delimiter)\n        # Skip the header.\n        field_names"))
+BREAKING.append(('array codec records the dtype kind character only', U, "dtype=str(obj.dtype), shape=obj.shape)", "dtype=obj.dtype.char, shape=obj.shape)", ['C18.T1']))
+EQUIVALENT.append(('array codec records dtype.str', U, "dtype=str(obj.dtype), shape=obj.shape)", "dtype=obj.dtype.str, shape=obj.shape)"))
+BREAKING.append(('read_tsv does not undo the quoting', U, "        reader = csv.reader(f, delimiter=delimiter)\n        # Skip the header.", "        reader = csv.reader(f, delimiter=delimiter, quoting=csv.QUOTE_NONE)\n        # Skip the header.", ['C18.T3']))
